@@ -28,7 +28,7 @@ fn view_strategy() -> BS<View> {
     (epoch_any(&ALL_SCALES), 0usize..9).prop_map(|(e, u)| View { e, u }).boxed()
 }
 
-fn check_float(name: &str, v: f64, p: i128, q: i128) -> Result<(), String> {
+pub fn check_float(name: &str, v: f64, p: i128, q: i128) -> Result<(), String> {
     let err = abs_err_vs_rational(v, p, q);
     let exact_mag = rational_to_f64(p.abs(), q);
     let one_sec = 1e9 / q as f64;
